@@ -445,6 +445,7 @@ var handlerRegistry = typeRegistry{
 			mustNotMemoize,
 			notMarkedNoCache,
 			notMarkedSingleton,
+			notMarkedReorder,
 			isNotFuncPointer,
 		},
 		mutate: func(a testArgs) {
